@@ -30,6 +30,8 @@ Proof.
   intros. rewrite keys_upsert. destruct (memz k (map fst l)) eqn:E; [assumption|].
   apply NoDup_snoc; [assumption|]. intros X. apply memz_In in X. congruence.
 Qed.
+Lemma not_in_keys_lookup {V} : forall k (l : list (Z * V)), ~ In k (map fst l) -> lookup k l = None.
+Proof. intros k l H. destruct (lookup k l) eqn:L; [|reflexivity]. exfalso. apply H. eapply lookup_in_keys; eauto. Qed.
 Lemma lookup_some_memz {V} : forall k (l : list (Z * V)) v, lookup k l = Some v -> memz k (map fst l) = true.
 Proof. intros. apply memz_In. eapply lookup_in_keys; eauto. Qed.
 Lemma memz_add_once : forall k m l, memz m (add_once k l) = (m =? k) || memz m l.
@@ -57,8 +59,7 @@ Definition cB (fs : fsys) (c : container) (n : name) : option bytes :=
 
 Record WFc (fs : fsys) (c : container) : Prop := {
   wf_keys : NoDup (map fst (parts _ c));
-  wf_ts : pkg _ c = PFolder -> cpath _ c <> None -> forall n b, lookup n (parts _ c) = Some (Some b) ->
-          memz n (tsl _ c) = true \/ disk_lookup fs (cpath _ c) n = None;
+  wf_ts : pkg _ c = PFolder -> cpath _ c <> None -> forall n b, lookup n (parts _ c) = Some (Some b) -> memz n (tsl _ c) = true;
   wf_pk : cpath _ c <> None -> pkg _ c <> PXml }.
 
 Lemma c_load_sem : forall fs c n b, WFc fs c -> lookup n (parts _ c) = None -> disk_lookup fs (cpath _ c) n = Some b ->
@@ -72,7 +73,7 @@ Proof.
   - destruct W as [K T P]. constructor; cbn [parts cpath pkg tsl].
     + apply NoDup_keys_upsert. exact K.
     + intros Hp Hc m b0 Hm. rewrite Hp. rewrite lookup_upsert in Hm. rewrite memz_add_once.
-      destruct (m =? n) eqn:E; [left; reflexivity|]. cbn [orb]. apply (T Hp Hc m b0 Hm).
+      destruct (m =? n) eqn:E; [reflexivity|]. cbn [orb]. apply (T Hp Hc m b0 Hm).
     + exact P.
 Qed.
 
@@ -88,8 +89,7 @@ Proof.
     destruct (pkg _ c) eqn:Pk; cbn [fst snd]; [fin W| |fin W].
     destruct (cpath _ c) as [p|] eqn:Cp; cbn [fst snd fx38 FIXED]; [|fin W].
     destruct (memz n (tsl _ c)) eqn:M; cbn [fst snd]; [fin W|].
-    destruct (wf_ts _ _ W Pk ltac:(rewrite Cp; discriminate) n b L) as [X|X]; [congruence|].
-    rewrite Cp in X. rewrite X. cbn [fst snd]. fin W.
+    pose proof (wf_ts _ _ W Pk ltac:(rewrite Cp; discriminate) n b L) as X. congruence.
   - cbn [fst snd]. fin W.
   - (* not loaded yet *)
     destruct (cpath _ c) as [p|] eqn:Cp.
@@ -114,7 +114,7 @@ Proof.
     + apply NoDup_keys_upsert. exact K.
     + intros Hp Hc m b0 Hm. rewrite Hp. rewrite lookup_upsert in Hm.
       destruct (cpath _ c) as [p|] eqn:Cp; [|congruence].
-      rewrite memz_add_once. destruct (m =? n) eqn:E; [left; reflexivity|]. cbn [orb].
+      rewrite memz_add_once. destruct (m =? n) eqn:E; [reflexivity|]. cbn [orb].
       exact (T Hp Hc m b0 Hm).
     + exact P.
 Qed.
@@ -144,23 +144,27 @@ Proof. reflexivity. Qed.
 
 Record WFd (fs : fsys) (d : document) : Prop := {
   wfd_c : WFc fs (cont _ _ d);
-  wfd_x : forall n, In n (map fst (xps _ _ d)) -> is_xml n = true }.
+  wfd_x : forall n, In n (map fst (xps _ _ d)) -> is_xml n = true;
+  wfd_live : forall n x, lookup n (xps _ _ d) = Some (Some x) -> dB fs d n <> None }.
+
+Lemma lookup_In {V} : forall k (v : V) l, lookup k l = Some v -> In (k, v) l.
+Proof.
+  induction l as [|[k' v'] l IH]; cbn; intros H; [discriminate|].
+  destruct (k =? k') eqn:E; [apply Z.eqb_eq in E; inversion H; subst; left; reflexivity|right; auto].
+Qed.
 
 Lemma WFdb_WFd : forall fs d, WFdb xml bytes kid fs d = true -> WFd fs d.
 Proof.
   intros fs d H. unfold WFdb in H. repeat (apply andb_true_iff in H as [H ?]).
-  rename H into Hk, H0 into Hx, H1 into Hp, H2 into Ht.
-  constructor; [constructor|].
+  rename H into Hk, H0 into Hl, H1 into Hx, H2 into Hp, H3 into Ht.
+  constructor; [constructor| |].
   - apply nodupb_NoDup. exact Hk.
   - intros Pk Cp n b L. unfold ts_invb in Ht. rewrite Pk in Ht. destruct (cpath _ (cont _ _ d)) as [p|] eqn:Cpe; [|congruence].
-    rewrite forallb_forall in Ht.
-    assert (Hin : In (n, Some b) (parts _ (cont _ _ d))).
-    { clear - L. induction (parts _ (cont _ _ d)) as [|[k v] l IH]; cbn in L; [discriminate|].
-      destruct (n =? k) eqn:E; [apply Z.eqb_eq in E; inversion L; subst; left; reflexivity|right; auto]. }
-    specialize (Ht _ Hin). cbn [fst snd] in Ht. apply orb_true_iff in Ht as [Ht|Ht]; [left; exact Ht|right].
-    rewrite <- Cpe. rewrite Cpe. destruct (disk_lookup fs (Some p) n); [discriminate|reflexivity].
+    rewrite forallb_forall in Ht. specialize (Ht _ (lookup_In _ _ _ L)). exact Ht.
   - intros Cp Pk. destruct (cpath _ (cont _ _ d)); [|congruence]. rewrite Pk in Hp. discriminate.
   - intros n Hn. rewrite forallb_forall in Hx. apply Hx. exact Hn.
+  - intros n x L. rewrite forallb_forall in Hl. specialize (Hl _ (lookup_In _ _ _ L)). cbn [fst snd] in Hl.
+    unfold dB. change (cB fs (cont _ _ d) n) with (bytes_of xml bytes kid fs d n). destruct (bytes_of xml bytes kid fs d n); [discriminate|discriminate].
 Qed.
 
 Lemma lookup_xp_cache : forall n m (l : list (name * option xml)),
@@ -188,6 +192,10 @@ Proof.
     by (intros; apply lookup_xp_cache).
   assert (Hk : forall m, In m (map fst l) -> is_xml m = true).
   { intros m Hm. apply keys_xp_cache in Hm as [Hm| ->]; [apply (wfd_x _ _ W); exact Hm|exact Hx]. }
+  assert (Hll : forall m y, lookup m l = Some (Some y) -> dB fs d m <> None).
+  { intros m y Lm. rewrite Hl in Lm. destruct (lookup m (xps _ _ d)) as [v|] eqn:L1.
+    - inversion Lm; subst. apply (wfd_live _ _ W m y L1).
+    - destruct (m =? n); discriminate. }
   destruct (lookup n l) as [[x|]|] eqn:Ln.
   - (* already parsed *)
     cbn [fst snd]. rewrite Hl in Ln. 
@@ -197,7 +205,7 @@ Proof.
     split; [reflexivity|]. split.
     + intros m. unfold dX. cbn [xps]. rewrite Hl. destruct (lookup m (xps _ _ d)) as [v|] eqn:Lm; [reflexivity|].
       destruct (m =? n) eqn:E; [apply Z.eqb_eq in E; subst; congruence|reflexivity].
-    + split; [constructor; [exact (wfd_c _ _ W)|exact Hk]|]. split; [reflexivity|]. split; [reflexivity|].
+    + split; [constructor; [exact (wfd_c _ _ W)|exact Hk|exact Hll]|]. split; [reflexivity|]. split; [reflexivity|].
       intros _. exists x. cbn [xps fst]. rewrite Hl, L0. auto.
   - (* wrapper without a tree: parse now *)
     pose proof (c_get_part_sem fs n (cont _ _ d) (wfd_c _ _ W)) as [G1 [G2 [G3 [G4 G5]]]].
@@ -212,15 +220,20 @@ Proof.
       * intros m. unfold dX, dB. cbn [xps cont]. rewrite lookup_upsert, G2.
         destruct (m =? n) eqn:E; [|rewrite Hl; destruct (lookup m (xps _ _ d)) as [v|]; [reflexivity|rewrite E; reflexivity]].
         apply Z.eqb_eq in E. subst m. fold (dB fs d n). fold (dX fs d n). rewrite DX. unfold dB. rewrite <- G1. reflexivity.
-      * split; [constructor; cbn [cont xps]; [exact G3|]|].
+      * split; [constructor; cbn [cont xps]; [exact G3| |]|].
         { intros m Hm. rewrite keys_upsert in Hm. match type of Hm with In _ (if ?cnd then _ else _) => destruct cnd eqn:Mn end; [apply Hk; exact Hm|].
           apply in_app_or in Hm as [Hm|[<-|[]]]; [apply Hk; exact Hm|exact Hx]. }
+        { intros m y Lm. unfold dB. cbn [cont]. rewrite G2. rewrite lookup_upsert in Lm. destruct (m =? n) eqn:E.
+          - apply Z.eqb_eq in E. subst m. rewrite <- G1. discriminate.
+          - apply (Hll m y Lm). }
         split; [exact G4|]. split; [exact G5|]. intros _. exists (par b). cbn [xps]. rewrite lookup_upsert_eq. auto.
     + split; [rewrite DX; unfold dB; rewrite <- G1; reflexivity|].
       split; [intros m; unfold dB; cbn [cont]; apply G2|]. split.
       * intros m. unfold dX, dB. cbn [xps cont]. rewrite G2, Hl.
         destruct (lookup m (xps _ _ d)) as [v|]; [reflexivity|]. destruct (m =? n); reflexivity.
-      * split; [constructor; cbn [cont xps]; [exact G3|exact Hk]|]. split; [exact G4|]. split; [exact G5|]. congruence.
+      * split; [constructor; cbn [cont xps]; [exact G3|exact Hk|]|].
+        { intros m y Lm. unfold dB. cbn [cont]. rewrite G2. apply (Hll m y Lm). }
+        split; [exact G4|]. split; [exact G5|]. congruence.
   - exfalso. rewrite Hl in Ln. destruct (lookup n (xps _ _ d)); [discriminate|]. rewrite Z.eqb_refl in Ln. discriminate.
 Qed.
 End Sem.
